@@ -189,7 +189,9 @@ func (r Condition) SetOperator(op Operator) Condition {
 }
 
 func (r *condition) setOperator(op Operator) {
-	if op == nil {
+	// a typed nil pointer (e.g. a nil *ComparisonOperator) is
+	// a non-nil interface, but calling its methods panics.
+	if op == nil || isNilPointer(op) {
 		return
 	}
 
